@@ -261,17 +261,20 @@ run_config(RegisterType rt, bool be, bool cb, const struct cfg *c, int ci)
     sz = ref_words(rt);
     s.be = be;
     s.na = 1;
-    s.a[0] = (struct aspec){ 0, sz + 2, REG_AF_RW, cb, false };
+    /* the area's base address differs from zero for two configurations out of
+     * three, so that register address and offset inside the area differ */
+    const uint32_t base = (ci % 3 == 0) ? 0 : (ci % 3 == 1) ? 0x100 : 0xfffe;
+    s.a[0] = (struct aspec){ base, sz + 2, REG_AF_RW, cb, false };
     s.nr = 3;
-    s.r[0] = (struct rspec){ REG_TYPE_UINT16, 0, K_NONE, vu_zero(), vu_zero(), vu_int(REG_TYPE_UINT16, 0x1111) };
-    s.r[1] = (struct rspec){ rt, 1, c->ckind, c->lo, c->hi, c->def };
-    s.r[2] = (struct rspec){ REG_TYPE_UINT16, 1 + sz, K_NONE, vu_zero(), vu_zero(), vu_int(REG_TYPE_UINT16, 0x2222) };
+    s.r[0] = (struct rspec){ REG_TYPE_UINT16, base, K_NONE, vu_zero(), vu_zero(), vu_int(REG_TYPE_UINT16, 0x1111) };
+    s.r[1] = (struct rspec){ rt, base + 1, c->ckind, c->lo, c->hi, c->def };
+    s.r[2] = (struct rspec){ REG_TYPE_UINT16, base + 1 + sz, K_NONE, vu_zero(), vu_zero(), vu_int(REG_TYPE_UINT16, 0x2222) };
     if (c->ckind == K_CB && !ref_cb_pred(rt, c->def))
         mc_broken("default does not satisfy callback predicate");
     make_values(rt, c);
     const struct rspec *rs = &s.r[1];
     char cdesc[160];
-    snprintf(cdesc, sizeof cdesc, "%s %s %s %s lo=%016llx hi=%016llx", TYPE_NAME[rt], be ? "BE" : "LE", cb ? "cb" : "mem",
+    snprintf(cdesc, sizeof cdesc, "%s %s %s base=%x %s lo=%016llx hi=%016llx", TYPE_NAME[rt], be ? "BE" : "LE", cb ? "cb" : "mem", base,
              CKIND_NAME[c->ckind], (unsigned long long)ref_bits(rt, c->lo), (unsigned long long)ref_bits(rt, c->hi));
 
     bool built = false;
